@@ -12,7 +12,8 @@ RULE = ("Each run: one subject future from a drawn producer (every executor clas
         "underlying work ends by value, exception, cancellation through it or behind its back, while 2-3 client "
         "threads issue a drawn history of cancel / add_done_callback / result / exception / wait / as_completed / "
         "done / cancelled / running. Oracles over the history: single immutable outcome, cancel() contract, "
-        "callbacks exactly once and only when done, blocked callers released by every kind of completion. "
+        "callbacks exactly once and only when done, blocked callers released by every kind of completion (also when the "
+        "delegate is cancelled behind the subject's back after the subject refused a cancel()). "
         "Non-trivial = at least one pre-emption and at least one client operation overlapping the completion.")
 ASSUMPTIONS = ["AsyncioExecutor futures (asyncio.Future) are not subjects",
                "an exception raised by the user's own callback through add_done_callback on an already-done future is expected behaviour",
@@ -400,7 +401,16 @@ def check(spec, env):
     inv = {e[0]: e for e in log if e[3] == "op"}
     for e in log:
         if e[3] == "op-ret" and e[4] in ("result", "exception", "wait", "as_completed") and e[5] == "timeout":
-            if t_done is not None and t_done < e[1] - 1e9:
+            if t_done is None and not final_done:
+                # every workload's underlying work (callable, retries, polls, inputs, or the external
+                # cancellation of the delegate) ends within the first virtual seconds: that
+                # completion of whatever kind must release the caller
+                ext = [x for x in log if x[3] == "ext-cancel"]
+                out.append({"oracle": "waiter-not-released", "sig": "waiter-not-released|%s|%s|never-completed" % (kind, e[4]),
+                            "msg": "%s: a caller blocked in %s() only returned by its %.0fs timeout at t=%.3fs and the future is still pending, "
+                                   "although everything it depends on had ended long before (end=%s%s)"
+                                   % (kind, e[4], WAIT_T, e[1] / 1e9, spec["end"], ", delegate cancelled behind its back at t=%.3fs" % (ext[0][1] / 1e9) if ext else "")})
+            elif t_done is not None and t_done < e[1] - 1e9:
                 out.append({"oracle": "waiter-not-released", "sig": "waiter-not-released|%s|%s|%s" % (kind, e[4], first[0] if first else "?"),
                             "msg": "%s: a caller blocked in %s() was not released: the future was observed %r at t=%.3fs "
                                    "but the call only returned by its %.0fs timeout at t=%.3fs"
